@@ -322,7 +322,8 @@ def num_ok(e):
 def enc_ok(e):
     """shape invariants the proved parse_value contracts require"""
     return (implies(cls_is(e, 'IntegerDataEncoding'),
-                    num_ok(e) and (e.encoding == 'unsigned' or e.encoding == 'signed' or e.encoding == 'twosComplement')) and
+                    num_ok(e) and (e.encoding == 'unsigned' or e.encoding == 'signed' or e.encoding == 'twosComplement' or
+                                  e.encoding == 'twosCompliment')) and
             implies(cls_is(e, 'FloatDataEncoding'), num_ok(e) and cap(e.parse_func, 'self') == e) and
             implies(cls_is(e, 'StringDataEncoding'),
                     is_none(e.length_linear_adjuster) or (is_none(e.fixed_length) and not is_none(e.dynamic_length_reference))) and
